@@ -22,7 +22,7 @@ def if_then_else(cond, truev, falsev):
         raise RuntimeError("Wrong type for if_then_else condition")
 
     if callable(truev): truev = guarded(cond)(truev)()
-    if callable(falsev): falsev = guarded(-cond)(falsev)()        
+    if callable(falsev): falsev = guarded(~cond)(falsev)()        
 
     if isinstance(truev, list):
         return [if_then_else(cond, truevi, falsevi) for (truevi,falsevi) in zip(truev,falsev)]
@@ -90,7 +90,7 @@ class BranchContext:
 
 class IfContext(BranchContext):
     def __init__(self, cond, ctx):
-        self.icond = 1-cond # should be before super().__init__ because may be guarded
+        self.icond = 1-cond if is_base_value(cond) else ~cond # should be before super().__init__ because may be guarded
         super().__init__(cond, ctx)
         
     def _elif(self, nwcond):
